@@ -129,6 +129,10 @@ func (e Env) Sum(xs ...int) int {
 	}
 	return s
 }
+// PtrOnly has a pointer receiver: it is a function of the environment only when the environment is passed
+// by pointer.
+func (e *Env) PtrOnly(n int) int { return n + e.I }
+
 func (e Env) Half(f float64) float64 { return f / 2 }
 func (e Env) H32(f float32) float32  { return f / 2 }
 func (e Env) I8fn(n int8) int8       { return n }
